@@ -94,7 +94,7 @@ func doBuiltinCall(t *IntraAnalysisState, callValue ssa.Value, callCommon *ssa.C
 			// taking the capacity does not propagate taint
 			return true
 
-		case "complex", "min", "max":
+		case "complex":
 			if len(callCommon.Args) == 2 {
 				f1 := callCommon.Args[1]
 				f2 := callCommon.Args[0]
@@ -103,6 +103,13 @@ func doBuiltinCall(t *IntraAnalysisState, callValue ssa.Value, callCommon *ssa.C
 				return true
 			}
 			return false
+
+		// min and max take one or more operands; the result may be any of them
+		case "min", "max":
+			for _, arg := range callCommon.Args {
+				simpleTransfer(t, instruction, arg, callValue)
+			}
+			return true
 
 		// for len, imag, real we also propagate the taint. This may not be necessary
 		case "len", "imag", "real":
